@@ -9,3 +9,5 @@ import CheetahModel.Properties.C13
 #print axioms C13.continuation_never_grows
 #print axioms C13.cleaned_lines
 #print axioms C13.rpn_is_infix
+#print axioms C13.nx_centres_at_tabulated_positions
+#print axioms C13.nx_accepts_iff_no_overlap
